@@ -190,7 +190,7 @@ package eval
 //@   property C10 C09 C07 C04
 
 // Members of the evaluator family: each is verified against the frame clause assuming the others' contracts.
-//@ funcs (*State).evalInternal, (*State).evalIfExpression, (*State).evalPostfixExpression, (*State).evalStatements, (*State).evalForExpression, (*State).evalForList, (*State).evalIdentifier, (*State).evalPrefixIncrDecr, (*State).evalAssignment, (*State).evalPipe, (*State).evalIndexExpression, (*State).evalMapLiteral, (*State).evalPrintLogError, (*State).evalDelete, (*State).evalBuiltin, (*State).evalForSpecialForms
+//@ funcs (*State).evalPostfixExpression, (*State).evalForExpression, (*State).evalForList, (*State).evalIdentifier, (*State).evalPrefixIncrDecr, (*State).evalPipe, (*State).evalIndexExpression, (*State).evalMapLiteral, (*State).evalPrintLogError, (*State).evalDelete, (*State).evalBuiltin, (*State).evalForSpecialForms
 //@   requires s != nil && s.env != nil
 //@   modifies heap
 //@   nosafety
@@ -203,6 +203,94 @@ package eval
 //@   ensures  @C04 mono:: missmono()
 //@   onpanic ensures regs:: regsame()
 //@   property C10 C04
+
+// Assignment (C05): what is bound, and what is used as index and element, is never a register object (registers are
+// reused once their loop or call is over).
+//@ func (*State).evalAssignment
+//@   requires s != nil && s.env != nil
+//@   modifies heap
+//@   nosafety
+//@   maypanic *
+//@   loop * invariant s.depth == old(s.depth) && s.env == old(s.env) && s.Out == old(s.Out) && s.env.numReg == old(s.env.numReg)
+//@   loop * invariant regsame()
+//@   loop * invariant @C04 missmono()
+//@   ensures  frame:: frame(s)
+//@   ensures  regs:: regsame()
+//@   ensures  @C04 mono:: missmono()
+//@   onpanic ensures regs:: regsame()
+//@   precall CreateOrSet requires @C05 noreg:: !isType(arg2, *object.Register)
+//@   precall evalIndexAssigment requires @C05 noregidx:: !isType(arg2, *object.Register) && !isType(arg3, *object.Register)
+//@   property C10 C04 C05
+
+// Statement sequences (C01): evaluation stops at the first statement whose value is an error or a return/break/continue
+// marker, and that value is the result; no later statement is evaluated.
+//@ define isRet(o) = isType(o, object.ReturnValue)
+//@ func (*State).evalStatements
+//@   requires s != nil && s.env != nil
+//@   modifies heap
+//@   nosafety
+//@   maypanic *
+//@   loop * invariant s.depth == old(s.depth) && s.env == old(s.env) && s.Out == old(s.Out) && s.env.numReg == old(s.env.numReg)
+//@   loop * invariant regsame()
+//@   loop * invariant @C04 missmono()
+//@   ensures  frame:: frame(s)
+//@   ensures  regs:: regsame()
+//@   ensures  @C04 mono:: missmono()
+//@   onpanic ensures regs:: regsame()
+//@   witness last = callresult after evalInternal#1
+//@   loop 1 invariant @C01 !isErr(result) && !isRet(result)
+//@   ensures  @C01 stop:: implies(isErr(result) || isRet(result), captured(last) && result == last)
+//@   property C10 C04 C01
+
+// if / else (C01): exactly one branch is evaluated, chosen by the condition's boolean value; a non-boolean condition is
+// an error and evaluates neither.
+//@ func (*State).evalIfExpression
+//@   requires s != nil && s.env != nil
+//@   modifies heap
+//@   nosafety
+//@   maypanic *
+//@   loop * invariant s.depth == old(s.depth) && s.env == old(s.env) && s.Out == old(s.Out) && s.env.numReg == old(s.env.numReg)
+//@   loop * invariant regsame()
+//@   loop * invariant @C04 missmono()
+//@   ensures  frame:: frame(s)
+//@   ensures  regs:: regsame()
+//@   ensures  @C04 mono:: missmono()
+//@   onpanic ensures regs:: regsame()
+//@   witness c = callresult after evalInternal#1
+//@   witness t = callresult after evalInternal#2
+//@   witness e = callresult after evalInternal#3
+//@   ensures  @C01 thenbranch:: implies(isBool(c) && boolVal(c), captured(t) && !captured(e) && result == t)
+//@   ensures  @C01 elsebranch:: implies(isBool(c) && !boolVal(c), captured(e) && !captured(t) && result == e)
+//@   ensures  @C01 nonbool:: implies(!isBool(c), isErr(result) && !captured(t) && !captured(e))
+//@   property C10 C04 C01
+
+// evalInternal, binary expressions (C01): the left operand is evaluated first; an error there is the result and the
+// right operand is not evaluated; && with a false left operand and || with a true one give that operand without
+// evaluating the right one; otherwise the result is what evalInfixExpression computes from the two values.
+//@ define infixTok(n) = n.(*ast.InfixExpression).Token.tokenType
+//@ func (*State).evalInternal
+//@   requires s != nil && s.env != nil
+//@   modifies heap
+//@   nosafety
+//@   maypanic *
+//@   loop * invariant s.depth == old(s.depth) && s.env == old(s.env) && s.Out == old(s.Out) && s.env.numReg == old(s.env.numReg)
+//@   loop * invariant regsame()
+//@   loop * invariant @C04 missmono()
+//@   ensures  frame:: frame(s)
+//@   ensures  regs:: regsame()
+//@   ensures  @C04 mono:: missmono()
+//@   onpanic ensures regs:: regsame()
+//@   witness l = callresult after Eval#3
+//@   witness op = infixTok(node) after Eval#3
+//@   witness r = callresult after Eval#4
+//@   witness applied = callresult after evalInfixExpression#1
+//@   ensures  @C01 order:: implies(captured(r), captured(l))
+//@   ensures  @C01 lefterr:: implies(captured(l) && isErr(l), result == l && !captured(r))
+//@   ensures  @C01 andshort:: implies(captured(l) && op == token.AND && isBool(l) && !boolVal(l), isBool(result) && !boolVal(result) && !captured(r))
+//@   ensures  @C01 orshort:: implies(captured(l) && op == token.OR && isBool(l) && boolVal(l), isBool(result) && boolVal(result) && !captured(r))
+//@   ensures  @C01 righterr:: implies(captured(r) && isErr(r), result == r)
+//@   ensures  @C01 apply:: implies(captured(applied), captured(l) && captured(r) && result == applied)
+//@   property C10 C04 C01
 
 // Index assignment and element deletion (C06): the container value that was bound before the statement - which other
 // bindings, arguments and container elements may still denote - keeps its elements.
@@ -388,6 +476,11 @@ package eval
 //@   maypanic *
 //@   ensures  frame:: frame(s)
 //@   ensures  balance:: s.env.numReg == old(s.env.numReg)
+//@   witness ne = callresult after evalInternal#1
+//@   loop 1 invariant @C01 !isErr(lastEval) && !isRet(lastEval)
+//@   ensures  @C01 bodyerror:: implies(captured(ne) && isErr(ne), result == ne)
+//@   ensures  @C01 bodyreturn:: implies(captured(ne) && isRet(ne) && ne.(object.ReturnValue).ControlType == token.RETURN, result == ne)
+//@   ensures  @C01 bodybreak:: implies(captured(ne) && isRet(ne) && ne.(object.ReturnValue).ControlType == token.BREAK, !isErr(result) && !isRet(result))
 //@   ensures  regs:: regsame()
 //@   ensures  @C04 mono:: missmono()
 //@   onpanic ensures regs:: regsame()
@@ -395,7 +488,7 @@ package eval
 //@   loop 1 invariant @C04 missmono()
 //@   loop 1 invariant s.depth == old(s.depth) && s.env == old(s.env) && s.Out == old(s.Out)
 //@   loop 1 invariant s.env.numReg == old(s.env.numReg) + ite(ptr != nil, 1, 0)
-//@   property C05 C10 C04
+//@   property C05 C10 C04 C01
 
 //@ func (*State).Reset
 //@   requires s != nil
